@@ -13,12 +13,12 @@ from sa.srcmodel import Program
 META = {
     "technique": "interprocedural exception-escape analysis: catalogue of partial operations and explicit raises, handler "
     "subtraction with the real exception hierarchy, name/receiver-typed call resolution with dynamic-dispatch edges "
-    "(nodes, expressions, tags, registered filters, lexer states), fixpoint to the public entry points",
+    "(nodes, expressions, tags, registered filters, lexer states), fixpoint to the public entry points; catalogue sites that depend on declared types (annotation-driven type approximation), list-length lower-bound dataflow for pop(), interval-kind abstract interpretation for islice bounds",
     "level_text": "Decides that no exception class outside LiquidError raised by a catalogued partial operation (int/float/"
     "Decimal conversion, ceil/floor/round, division, %-formatting, islice, next, constant-index reads, encode/decode, "
-    "base64, timestamps, explicit raise/assert) can propagate from its site through any call chain to "
+    "base64, timestamps, explicit raise/assert; str()/repr()/format()/f-string/escape() of a value declared object/Any (int/str digit limit), list.pop() on a list not proven non-empty, hashing of a value declared object/Any by `in`, islice bounds not proven within [0, k*len]) can propagate from its site through any call chain to "
     "Environment.from_string/parse/tokenize/get_template*, Template.render*/analyze* or extract_from_template, and "
-    "that str()/detailed_message()/context() of a LiquidError reach no such site at all. One uncovered site is one "
+    "that str()/detailed_message()/context() of a LiquidError reach no such site at all (every LiquidError built in liquid2 gets a str/None/exception message). One uncovered site is one "
     "input that escapes. The time bound, RecursionError and exceptions raised inside user drops are not decided.",
     "level_note": "Trusted base: the partial-operation catalogue (printed in the evidence) and the exemption table "
     "(one named site + reason each); callee resolution over-approximates inside liquid2 and treats third-party "
